@@ -4,14 +4,16 @@
    A connection's history is a list of timed events: EvMsg m = a decoded message handed to
    completePack, EvEnd = the end of one read (expiry + re-request pass).  ANY grouping of the
    messages into reads is some placement of EvEnd events, so the theorems hold for every TCP
-   segmentation of the message sequence; the byte-level splitter is C04's subject and
-   C05_segmentation composes the two.  The transfer under consideration has message id X and
+   segmentation of the message sequence; the byte-level splitter is C04's subject;
+   C05_segmentation says parse on any segmentation equals the loop on the frames' messages, and
+   C05_segmentation_exact states C05_exact's conclusion for the bytes cut into reads.  The transfer under consideration has message id X and
    packet bodies `bodies` (total = len bodies >= 1, every body non-empty); it starts with packet
    1 (event (t1, EvMsg p1)) in ANY well-formed state s0 (an older unfinished transfer of X is
    overwritten); `rest` may contain, in any order and any number: messages that are not
    sub-packages of X (unfragmented messages, sub-packages of other ids - whole concurrent
    transfers), packets 2..n of X (repeated at will), sub-packages of X with an impossible number
    (0 or > n), ends of reads; all within 60 s of packet 1 (C14 covers what happens later). *)
+From Coq Require Import ZArith ZifyN Lia.
 From JT.Base Require Import Prelude.
 From JT.Model Require Import Frame Unpack Subpkg SubpkgHandlers.
 From JT.Model Require Reply.
@@ -110,6 +112,36 @@ Theorem C05_parse_is_run : forall now ms s, delete_timeout now s = s ->
 Proof. exact cp_loop_is_run. Qed.
 Print Assumptions C05_parse_is_run.
 
+(* C05_exact at byte level: a stream of valid frames fs whose decoded messages form a transfer
+   history as in C05_exact (packet 1 first, then anything C05_exact allows), cut into reads in ANY
+   way and processed at one instant: among everything parse delivers exactly one message for X is
+   flagged complete, its body is the concatenation of the packet bodies, and no read returns an error *)
+Theorem C05_segmentation_exact : forall X bodies fs chunks now p1 l1 t m l2,
+  Forall vframe fs -> concat chunks = concat fs ->
+  bodies <> [] -> Forall nonempty bodies ->
+  good_pkt X (len bodies) bodies p1 -> m_no p1 = 1 ->
+  let evs := map (fun rm => (now, EvMsg (snd rm))) (map decode_ok fs) in
+  hd_error evs = Some (now, EvMsg p1) ->
+  Forall (fun te => ev_ok X (len bodies) bodies (snd te)) (tl evs) ->
+  evs = l1 ++ (t, EvMsg m) :: l2 ->
+  ~ covers (len bodies) (numbers X (len bodies) l1) ->
+  covers (len bodies) (numbers X (len bodies) (l1 ++ [(t, EvMsg m)])) ->
+  map snd (filter (fun c => fst c =? X) (completed_msgs (fst (feed_all now pst0 chunks)))) = [concat bodies] /\
+  snd (feed_all now pst0 chunks) = repeat None (length chunks).
+Proof. exact segmentation_exact. Qed.
+Print Assumptions C05_segmentation_exact.
+
+(* on unfragmented traffic the bookkeeping is the identity: every message of the read is delivered
+   as unpack extracted it, nothing is flagged complete, the transfer table is untouched (any state) *)
+Theorem C05_unfragmented_identity : forall now ms s, Forall (fun rm => m_sum (snd rm) = 0) ms ->
+  cp_loop now s ms = (s, map (fun rm => {| p_raw := fst rm; p_msg := snd rm; p_complete := false |}) ms).
+Proof. exact cp_loop_unfragmented. Qed.
+Print Assumptions C05_unfragmented_identity.
+(* a decoded frame without the fragment bit is such a message *)
+Theorem C05_unfragmented_decoded : forall d m, decode d = Ok m -> m_frag m = 0 -> m_sum m = 0.
+Proof. exact decode_unfragmented_sum. Qed.
+Print Assumptions C05_unfragmented_decoded.
+
 (* end to end, default configuration (sub-packages filtered from handlers until complete): the
    messages of a connection ms = packet 1 of the transfer followed by anything C05_exact allows,
    processed by the loop of parse (from a state on which the expiry pass has acted) and handed to
@@ -176,7 +208,7 @@ Proof. vm_compute. split; reflexivity. Qed.
 
 (* C05_segmentation on a concrete stream: two packets of a transfer as frames (Frame.encode cannot
    produce a fragmented frame, so they are written out), cut in the middle of the first frame and
-   two bytes into the second: the hypotheses hold and the reassembled message comes out *)
+   one byte into the second: the hypotheses hold and the reassembled message comes out *)
 Definition ex_frame (no : N) (body : list N) : list N :=
   let q := [8; 1; 32; len body; 1; 35; 69; 103; 137; 1; 0; no; 0; 2; 0; no] ++ body in escape (q ++ [xor_all q]).
 Definition ex_fs : list (list N) := [ex_frame 1 [65; 126]; ex_frame 2 [125; 66]].
@@ -190,3 +222,52 @@ Proof.
   split. { repeat constructor; apply vframeb_spec; vm_compute; reflexivity. }
   vm_compute. repeat split; reflexivity.
 Qed.
+
+(* the split hypotheses of C05_exact on the example history: the event at position 9 (packet 2 at
+   59 s) is the one that brings the last missing number *)
+Example C05_example_split :
+  let evs := (0, EvMsg (ex_pkt 2049 3 1 11 [1; 2])) :: ex_rest in
+  let l1 := firstn 9 evs in
+  evs = l1 ++ (59000, EvMsg (ex_pkt 2049 3 2 18 [126])) :: skipn 10 evs /\
+  ~ covers 3 (numbers 2049 3 l1) /\
+  covers 3 (numbers 2049 3 (l1 ++ [(59000, EvMsg (ex_pkt 2049 3 2 18 [126]))])).
+Proof.
+  cbv zeta. split. reflexivity. split.
+  - intros H. specialize (H 2). vm_compute in H.
+    assert (C : 1 = 2 \/ 3 = 2 \/ 3 = 2 \/ False) by (apply H; split; discriminate).
+    destruct C as [C|[C|[C|[]]]]; discriminate.
+  - intros k Hk. assert (K : k = 1 \/ k = 2 \/ k = 3) by lia.
+    destruct K as [K|[K|K]]; subst k; vm_compute; tauto.
+Qed.
+
+(* C05_never_early on an incomplete set: packets 1 and 3 of 3, duplicates, a bad number: nothing *)
+Example C05_example_incomplete :
+  let evs := [(0, EvMsg (ex_pkt 2049 3 1 11 [1; 2])); (10, EvMsg (ex_pkt 2049 3 3 12 [3; 4; 5])); (10, EvEnd);
+              (4000, EvMsg (ex_pkt 2049 3 3 14 [3; 4; 5])); (4000, EvMsg (ex_pkt 2049 3 0 15 [9])); (4000, EvEnd)] in
+  completions 2049 (snd (run [] evs)) = [] /\ map fst (fst (run [] evs)) = [2049].
+Proof. vm_compute. split; reflexivity. Qed.
+
+(* C05_segmentation_timed: the stream of C05_example_segmentation with its three reads at 0, 7 and
+   27 s: no_expiry holds (all within 60 s) and the loop delivers the same messages, read by read
+   0, 1 (packet 1) and 2 (packet 2 and the completed message) *)
+Example C05_example_timed :
+  let reads := [(0, nth 0 ex_chunks []); (7000, nth 1 ex_chunks []); (27000, nth 2 ex_chunks [])] in
+  no_expiry pst0 reads /\
+  map (fun p => p_complete p) (concat (owns_timed pst0 reads)) = [false; false; true] /\
+  map (fun r => length (snd (fst r))) (feed_timed pst0 reads) = [0%nat; 1%nat; 2%nat].
+Proof.
+  cbv zeta. split.
+  - apply (C05_no_expiry_within_60s 0). repeat constructor; cbn [fst]; vm_compute; discriminate.
+  - vm_compute. split; reflexivity.
+Qed.
+
+(* C05_handlers_see_exactly_one on a concrete connection: two packets of 0x0801 and a heartbeat
+   through the loop of parse and the sequential schedule of the reader / writer model: the reader
+   finishes and OnReadExecutionEvent sees the sub-packaged id once, with the whole body *)
+Example C05_example_handlers :
+  let ms := [([], ex_pkt 2049 2 1 1 [1]); ([], ex_pkt 2 0 0 2 []); ([], ex_pkt 2049 2 2 3 [2])] in
+  let ds := map dmsg_of (snd (cp_loop 0 [] ms)) in
+  Reply.reader_done (Reply.final (Reply.init ds) (Reply.seq_sched ds)) = true /\
+  handler_bodies 2049 (Reply.reader_obs (Reply.trace (Reply.init ds) (Reply.seq_sched ds))) = [[1; 2]] /\
+  Reply.std_registered 2049 = true.
+Proof. vm_compute. repeat split; reflexivity. Qed.
